@@ -210,20 +210,82 @@ fn uni_strategy(n: u64) -> impl Strategy<Value = UniCase> {
     (prop_oneof![3 => 2usize..=5, 2 => 6usize..=64], any::<u64>(), any::<bool>()).prop_map(move |(m, seed, reset_each)| UniCase { m, n: (n / m as u64).max(20_000), seed, reset_each })
 }
 
+// -------------------------------------------------------------------------------------------------
+// very large m with extreme generator words, and exact uniformity of the first draw over a dyadic grid of generator words
+
+#[derive(Clone, Debug, Serialize, Deserialize)]
+pub struct EdgeCase {
+    pub m: usize,
+    pub words: Vec<u64>,
+    /// number of bits of the dyadic grid (0 = skip the grid part)
+    pub grid_bits: u32,
+}
+
+pub fn eval_edge(c: &EdgeCase) -> Eval {
+    let m = c.m;
+    let mut fy = FYshuffle::new(m);
+    let mut g = Scripted::new(&c.words, 0x17);
+    let mut seen = std::collections::HashSet::new();
+    for (i, w) in c.words.iter().enumerate() {
+        let x = match catch(|| fy.next(&mut g)) {
+            Ok(x) => x,
+            Err(p) => return Err(Fail::new(format!("m = {}: draw {} with generator word {:#x} aborted: {}", m, i, w, p))),
+        };
+        ensure!(x < m, "m = {}: draw {} with generator word {:#x} returned {} which is not in 0..m", m, i, w, x);
+        ensure!(seen.insert(x), "m = {}: value {} drawn twice within one block (draw {}, generator word {:#x})", m, x, i, w);
+    }
+    // dyadic grid: the generator words j * 2^(64-k), j = 0..2^k, are equally spaced over the unit interval; when m divides 2^k
+    // the first draw after a reset must hit every value exactly 2^k / m times (exact arithmetic, no statistics)
+    let mut grid_checked = false;
+    if c.grid_bits > 0 && m.is_power_of_two() && m <= (1usize << c.grid_bits) && m <= 4096 {
+        let k = c.grid_bits;
+        let mut counts = vec![0u32; m];
+        let mut f2 = FYshuffle::new(m);
+        for j in 0..(1u64 << k) {
+            f2.reset();
+            let mut g = Scripted::new(&[j << (64 - k)], 1);
+            counts[f2.next(&mut g)] += 1;
+        }
+        let want = (1u32 << k) / m as u32;
+        for (v, cnt) in counts.iter().enumerate() {
+            ensure!(*cnt == want, "m = {}: over the {} equally spaced generator words j*2^{} the first draw returns value {} {} times instead of {}", m, 1u64 << k, 64 - k, v, cnt, want);
+        }
+        grid_checked = true;
+    }
+    Ok(Report::new(true).class_if(m > (1 << 24), "m>2^24").class_if(m > 65536, "m>2^16").class_if(grid_checked, "dyadic-grid-exact-uniformity"))
+}
+
+fn edge_strategy() -> impl Strategy<Value = EdgeCase> {
+    let big = prop::sample::select(vec![65_537usize, (1 << 20) + 3, (1 << 24) - 1, (1 << 24) + 1, (1 << 24) + 3, (1 << 24) + 2]);
+    let small = prop::sample::select(vec![2usize, 4, 8, 16, 64, 256, 1024]);
+    prop_oneof![
+        1 => (big, prop::collection::vec(word(), 1..6)).prop_map(|(m, mut words)| {
+            words.insert(0, u64::MAX);
+            EdgeCase { m, words, grid_bits: 0 }
+        }),
+        2 => (small, prop::collection::vec(word(), 0..2), 8u32..13).prop_map(|(m, words, grid_bits)| EdgeCase { m, words, grid_bits }),
+    ]
+}
+
 pub fn run(ctx: &Ctx) {
     ctx.set_rule("(a) exact: proptest generates (m in 1..200, scripted generator words incl. 0, u64::MAX and the words around the top of the unit interval, a count of earlier draws before a reset, 1..3 blocks); a new instance, a reset new instance and an instance with history + reset \
         are fed the identical word stream: every block of m draws must be a permutation of 0..m-1, the three instances must agree draw by draw, get_values() must be a permutation (and equal the drawn sequence after the first block). Non-trivial = m >= 2. \
-        (b) uniformity: with a Xoshiro256++ generator seeded from the case, N permutations are drawn (with reset each time, or relying on the wrap-around); for m <= 5 all m! orders, and for every m <= 64 all m^2 (draw index, value) cells must have frequency 1/cells within a per-cell Bernstein bound with a union bound over the cells (delta 1e-14), confirmed on an independent seed.");
+        (b) uniformity: with a Xoshiro256++ generator seeded from the case, N permutations are drawn (with reset each time, or relying on the wrap-around); for m <= 5 all m! orders, and for every m <= 64 all m^2 (draw index, value) cells must have frequency 1/cells within a per-cell Bernstein bound with a union bound over the cells (delta 1e-14), confirmed on an independent seed. (c) edges: sizes up to 2^24 + 3 with generator words at the top of the unit interval (draws must stay in range and distinct); exact uniformity of the first draw over the dyadic grid of generator words j*2^(64-k) for m a power of two.");
     ctx.assume("no bit-exact reference shuffle is used: a different but correct Fisher-Yates implementation would not be flagged");
     super::run_fixed_tier(ctx, replay);
     let (cases, max_m) = ctx.tier.pick((150_000, 200), (3_000_000, 600));
     ctx.drive("exact", cases, 16, 4000, || strategy(max_m), eval);
+    let cases = ctx.tier.pick(96, 960);
+    ctx.drive("edges", cases, 16, 10, edge_strategy, eval_edge);
     let (cases, n) = ctx.tier.pick((48, 6_000_000), (480, 40_000_000));
     ctx.drive("uniformity", cases, 16, 12, || uni_strategy(n), eval_uni);
 }
 
 pub fn replay(ctx: &Ctx, sub: &str, case: &Value) -> Result<(), String> {
-    if sub == "uniformity" {
+    if sub == "edges" {
+        let c: EdgeCase = parse_case(case)?;
+        ctx.run_fixed(sub, &c, eval_edge);
+    } else if sub == "uniformity" {
         let c: UniCase = parse_case(case)?;
         ctx.run_fixed(sub, &c, eval_uni);
     } else {
